@@ -239,7 +239,15 @@ func ristrettoDecodeEndToEnd() {
 	var c CompressedRistretto
 	verif.AnyBytes("c", c[:])
 	var p RistrettoPoint
+	p.inner = *ED25519_BASEPOINT_POINT
+	before := p
 	_, err := p.SetCompressed(&c)
+	if err != nil {
+		verif.Assert(samePoint(&p.inner, &before.inner), "receiver untouched on rejection")
+		var q RistrettoPoint
+		q.inner = *ED25519_BASEPOINT_POINT
+		verif.Assert(q.UnmarshalBinary(c[:]) != nil && isIdentityRep(&q.inner), "UnmarshalBinary: error and identity receiver on rejection")
+	}
 
 	P := field.VerifP()
 	one := verif.IntK(1)
